@@ -257,37 +257,52 @@ def _hyp_shard(arg):
     # the all-tau helper must agree with the single-tau function
     from molgri.molecules.transitions import MSM
     rng = np.random.default_rng([shard, 12])
-    for _ in range(5):
+    for rep in range(6):
         n = int(rng.integers(2, 8))
         traj = rng.integers(0, n, size=int(rng.integers(5, 60))).astype(float)
         traj[rng.random(len(traj)) < 0.1] = NAN
-        taus = np.array(sorted(set(int(t) for t in rng.integers(1, 12, size=4))))
+        # lag times as a caller lists them: increasing, decreasing, in arbitrary order, with repeats
+        taus = rng.integers(1, 12, size=int(rng.integers(1, 6)))
+        order = ["increasing", "as_drawn", "decreasing"][rep % 3]
+        if order == "increasing":
+            taus = np.array(sorted(set(int(t) for t in taus)))
+        elif order == "decreasing":
+            taus = np.array(sorted((int(t) for t in taus), reverse=True))
         for noncorr in (False, True):
             case = {"traj": traj.tolist(), "n_cells": n, "tau": taus.tolist(), "noncorr": noncorr, "all_tau": True}
-            allm = MSM(traj, n).get_all_tau_transition_matrices(taus, noncorrelated_windows=noncorr)
-            ok = len(allm) == len(taus)
-            for t, m in zip(taus, allm):
-                want, _, _ = naive(traj, n, int(t), noncorr)
-                ok = ok and np.allclose(np.asarray(m.todense()), want, atol=1e-12, rtol=0)
-            res.case(sample=None, nontrivial=True, key=case, classes=["all_tau_helper"])
-            if not ok:
-                res.violation(case, "get_all_tau_transition_matrices disagrees with the counting rule")
+            msgs = judge_all_tau(case)
+            res.case(sample=None, nontrivial=True, key=case, classes=["all_tau_helper", f"all_tau_helper_taus_{order}"])
+            if msgs:
+                res.violation(case, "; ".join(msgs))
     return res
+
+
+def judge_all_tau(case):
+    """Entry i of the all-tau helper is the transition matrix of taus[i] (naive counting rule), whatever the order."""
+    from molgri.molecules.transitions import MSM
+    traj = np.array([NAN if (x is None or x == "nan") else float(x) for x in case["traj"]])
+    taus = np.array(case["tau"])
+    try:
+        with quiet():
+            allm = MSM(traj, case["n_cells"]).get_all_tau_transition_matrices(taus, noncorrelated_windows=case["noncorr"])
+    except Exception as e:
+        return [f"all-tau helper: exception {type(e).__name__}: {e}"]
+    if len(allm) != len(taus):
+        return [f"all-tau helper returns {len(allm)} matrices for {len(taus)} lag times"]
+    for i, (t, m) in enumerate(zip(taus, allm)):
+        want, _, _ = naive(traj, case["n_cells"], int(t), case["noncorr"])
+        if not hasattr(m, "todense"):
+            return [f"all-tau helper: entry {i} (tau={t}) of taus={taus.tolist()} is {m!r}, not a matrix"]
+        if not np.allclose(np.asarray(m.todense()), want, atol=1e-12, rtol=0):
+            return [f"all-tau helper: entry {i} of taus={taus.tolist()} is not the transition matrix of tau={t}"]
+    return []
 
 
 def replay(case):
     if case.get("large"):
         return judge_large(case)
     if case.get("all_tau"):
-        from molgri.molecules.transitions import MSM
-        traj = np.array([NAN if (x is None or x == "nan") else float(x) for x in case["traj"]])
-        allm = MSM(traj, case["n_cells"]).get_all_tau_transition_matrices(np.array(case["tau"]),
-                                                                         noncorrelated_windows=case["noncorr"])
-        for t, m in zip(case["tau"], allm):
-            want, _, _ = naive(traj, case["n_cells"], int(t), case["noncorr"])
-            if not np.allclose(np.asarray(m.todense()), want, atol=1e-12, rtol=0):
-                return [f"all-tau helper wrong at tau={t}"]
-        return []
+        return judge_all_tau(case)
     return judge(case)
 
 
